@@ -135,6 +135,7 @@ class StatusV(Model):
 
 def install(ctx):
     M = ctx.models
+    install_http(ctx)
     ctx.tok_kinds = {}
     ctx.tok_ord = {}
     ctx.default_models = {}
@@ -245,3 +246,100 @@ def install(ctx):
                 return StatusV(code)
             return status
         M.register('Status::' + code, mk(code))
+
+
+class MaybeUninitV(Model):
+    """contents of a Box<MaybeUninit<[T; N]>> written through `(*ptr).1.0.0 = [..]` (vec! lowering)"""
+
+    def __init__(self, inner=None):
+        self.inner = inner
+
+    def get_field(self, i):
+        return self
+
+    def set_field(self, i, new):
+        if isinstance(new, MaybeUninitV):
+            return new
+        return MaybeUninitV(new)
+
+
+class BoxUninit(Model):
+    def __init__(self):
+        self.cell = Cell(MaybeUninitV(), 'box-uninit')
+
+    def get_field(self, i):
+        return self
+
+    def deref_loc(self, ip):
+        return Loc(self.cell)
+
+    def coerce(self, ip, ty, kind):
+        return self
+
+
+class HttpRequestM(Model):
+    def __init__(self, method, url, headers=(), body=None):
+        self.method, self.url, self.headers, self.body = method, url, tuple(headers), body
+
+
+class HttpResponseM(Model):
+    def __init__(self, status):
+        self.status = status
+
+
+def install_http(ctx):
+    M = ctx.models
+    from models_async import Leaf
+
+    @M.reg('Box::new_uninit')
+    def box_new_uninit(ip, pc, args, dt):
+        return BoxUninit()
+
+    @M.reg('box_assume_init_into_vec_unsafe', 'boxed::box_assume_init_into_vec_unsafe')
+    def box_into_vec(ip, pc, args, dt):
+        b = args[0]
+        inner = b.cell.v.inner
+        if inner is None:
+            raise PanicPath('ub', 'vec! from an uninitialised box')
+        from models_coll import Seq
+        return Seq(inner.elems, inner.n, 'vec')
+
+    @M.reg('Client::request')
+    def client_request(ip, pc, args, dt):
+        from models_core import deref_all
+        return HttpRequestM(args[1], deref_all(args[2]))
+
+    @M.reg('Client::new', 'Client::clone')
+    def client_new(ip, pc, args, dt):
+        return Opaque('reqwest::Client')
+
+    @M.reg('RequestBuilder::header')
+    def rb_header(ip, pc, args, dt):
+        r = args[0]
+        return HttpRequestM(r.method, r.url, r.headers + ((args[1], args[2]),), r.body)
+
+    @M.reg('RequestBuilder::body')
+    def rb_body(ip, pc, args, dt):
+        r = args[0]
+        return HttpRequestM(r.method, r.url, r.headers, args[1])
+
+    @M.reg('RequestBuilder::send')
+    def rb_send(ip, pc, args, dt):
+        ip.path.effect('http.send', args[0])
+        return Leaf('http.send', args[0])
+
+    @M.reg('Response::status')
+    def resp_status(ip, pc, args, dt):
+        r = read_loc(args[0].loc)
+        if isinstance(r, HttpResponseM):
+            return S(r.status, 'StatusCode')
+        return NotImplemented
+
+    @M.reg('<StatusCode as Into>::into', '<u16 as From>::from', 'StatusCode::as_u16')
+    def status_into(ip, pc, args, dt):
+        v = args[0]
+        if isinstance(v, Ref):
+            v = read_loc(v.loc)
+        if isinstance(v, S) and v.ty == 'StatusCode':
+            return S(v.t, 'u16')
+        return NotImplemented
